@@ -154,9 +154,30 @@ def _fresh_check(ctx, s, seed, what):
         ctx.viol(f"{what}-seed-getter", {"seed": seed, "got": s.seed()})
 
 
+def _containers(case, ctx):
+    """the stream containers hand out streams too: the 'default' stream of one StreamInformation is nobody else's"""
+    from pydsol.core.streams import MersenneTwister, StreamInformation, StreamSeedInformation
+    for cls in (StreamInformation, StreamSeedInformation):
+        x, y = cls(), cls()
+        sx, sy = x.get_stream("default"), y.get_stream("default")
+        ctx.count("container_default_streams_compared")
+        if sx is sy:
+            ctx.viol("streams-share-state:default-stream-of-two-containers", {"container": cls.__name__})
+            return
+        for _ in range(1 + case["seed"] % 5):
+            sx.next_float()
+        sx.set_seed(case["bseed"])
+        ref = MersenneTwister(sy.original_seed())
+        if [sy.next_float() for _ in range(5)] != [ref.next_float() for _ in range(5)] or sy.seed() != sy.original_seed():
+            ctx.viol("streams-share-state:default-stream-of-two-containers", {"container": cls.__name__, "note": "draws on one changed the other"})
+            return
+
+
 def run_case(case, ctx):
     from pydsol.core.streams import MersenneTwister
     seed, ops = case["seed"], case["ops"]
+    if case["seed"] % 7 == 0:
+        _containers(case, ctx)
     a, a2, b = MersenneTwister(seed), MersenneTwister(seed), MersenneTwister(case["bseed"])
     if a.seed() != seed or a.original_seed() != seed:
         ctx.viol("seed-getter-after-construction", {"seed": seed, "got": [a.seed(), a.original_seed()]})
